@@ -742,7 +742,22 @@ static std::string run_http_case(const std::vector<std::string>& t) {
   return out.empty() ? std::string("-") : out;
 }
 
-int main() {
+// --params: constants of the compiled code (gen/params_c13.py reads them from here, not from the source text)
+static int print_params() {
+  using TS = torrent::tracker::TrackerState;
+  std::cout << "trk_event_none=" << (int)TS::EVENT_NONE << "\ntrk_event_completed=" << (int)TS::EVENT_COMPLETED
+            << "\ntrk_event_started=" << (int)TS::EVENT_STARTED << "\ntrk_event_stopped=" << (int)TS::EVENT_STOPPED
+            << "\ntrk_default_min_interval=" << (long long)std::chrono::seconds(TS::default_min_interval).count()
+            << "\ntrk_min_min_interval=" << (long long)std::chrono::seconds(TS::min_min_interval).count()
+            << "\ntrk_max_min_interval=" << (long long)std::chrono::seconds(TS::max_min_interval).count()
+            << "\ntrk_default_normal_interval=" << (long long)std::chrono::seconds(TS::default_normal_interval).count()
+            << "\ntrk_min_normal_interval=" << (long long)std::chrono::seconds(TS::min_normal_interval).count()
+            << "\ntrk_max_normal_interval=" << (long long)std::chrono::seconds(TS::max_normal_interval).count() << "\n";
+  return 0;
+}
+
+int main(int argc, char** argv) {
+  if (argc > 1 && std::string(argv[1]) == "--params") return print_params();
   std_setup();
   g_main = new HMain();
   torrent::ThreadMain::set_thread_base(g_main);
